@@ -23,6 +23,7 @@ func genIndexed(prop string, seed uint64, run int, stream uint64, uniquePct int)
 	g := newGen(r)
 	g.colls = []string{"c0"}
 	g.ids = 3 + r.IntN(3)
+	g.wide = 12
 	p := &Plan{Prop: prop, Seed: seed, Run: run, Cfg: seqCfg(r)}
 	tp := TaskPlan{Name: "client"}
 	// indexes first or after the data (build over existing documents)
